@@ -66,16 +66,25 @@ def schedule_freshness(folder, rng: Rng, n_episodes: int, n_steps: int, globals_
         plan = []
         for k in range(n_episodes + 1):
             r = rng.fork(f"ep{k}")
-            plan.append({"seed": r.below(2 ** 31), "acts": [0 if r.chance(1, 6) else r.below(2 ** 16) for _ in range(n_steps if k else max(2, n_steps // 2))]})
+            plan.append({"seed": r.below(2 ** 31) if k % 3 else [0, None][(k // 3) % 2], "acts": [0 if r.chance(1, 6) else r.below(2 ** 16) for _ in range(n_steps if k else max(2, n_steps // 2))]})
 
     def ops_of(k: int) -> List[Tuple]:
         return [("reset", plan[k]["seed"])] + [("step", a) for a in plan[k]["acts"]]
 
-    def run_episode(env, k: int) -> List[Dict[str, str]]:
+    saved_rng: Dict[int, Any] = {}
+
+    def run_episode(env, k: int, reference: bool = False) -> List[Dict[str, str]]:
         canon = iso.Canon()
         out = []
         for op in ops_of(k):
-            rec = iso.run_ops(env, [op], canon)[0]
+            if op[0] == "reset" and op[1] is None:
+                # `reset()` without a seed keeps the generators running (Gymnasium): the reference starts its reset from the generator
+                # state the long-lived environment had at its reset; everything else must not depend on the past
+                if reference:
+                    iso.restore_rng(saved_rng[k])
+                else:
+                    saved_rng[k] = iso.save_rng()
+            rec = iso.run_ops(env, [op], canon, with_rng=True)[0]
             if op[0] == "reset" and globals_fp is not None:
                 rec["globals"] = canon.text(globals_fp())
             out.append(rec)
@@ -110,7 +119,7 @@ def schedule_freshness(folder, rng: Rng, n_episodes: int, n_steps: int, globals_
         iso.normalise_process_state()
         cfg_k = join_cfg(fd, k)
         fresh = PrimaiteGymEnv(env_config=cfg_k)
-        t = run_episode(fresh, k)
+        t = run_episode(fresh, k, reference=True)
         try:
             fresh.close()
         except Exception:
@@ -151,6 +160,33 @@ THRESHOLD_CHOICES: List[Optional[Dict]] = [
     {"nmne": {"high": 10, "medium": 5, "low": 0}, "file_access": {"high": 4, "medium": 2, "low": 1}},
     {"app_executions": {"high": 3, "medium": 2, "low": 1}, "file_access": {"high": 9, "medium": 3, "low": 2}},
 ]
+
+
+LOG_LEVELS = ["DEBUG", "INFO", "WARNING", "ERROR", "CRITICAL"]
+DEFAULT_KEYS = ["node_start_up_duration", "node_shut_down_duration", "node_scan_duration", "folder_scan_duration", "folder_restore_duration"]
+AIR_CHOICES: List[Optional[Dict[str, float]]] = [None, {"WIFI_2_4": 0.001}, {"WIFI_2_4": 0.001, "WIFI_5": 0.001}, {"WIFI_5": 50.0}, {"WIFI_2_4": 3.5}]
+
+
+def _io_variant(rng: Rng) -> Dict:
+    """io_settings of one episode: every kind of file / terminal output stays OFF (the rig must not write), what varies is what the
+    settings leave in SIM_OUTPUT (log levels) and the per-game `save_step_metadata` flag being spelled out or left to its default"""
+    io = dict(scen.QUIET_IO)
+    if rng.chance(2, 3):
+        io["sys_log_level"] = rng.choice(LOG_LEVELS)
+    if rng.chance(2, 3):
+        io["agent_log_level"] = rng.choice(LOG_LEVELS)
+    if rng.chance(1, 3):
+        io.pop("save_step_metadata", None)   # default False
+    return io
+
+
+def _defaults_variant(rng: Rng) -> Dict:
+    """the top-level `defaults` section: durations that from_config copies onto every node of that episode (0 and 1 included)"""
+    d: Dict[str, int] = {}
+    for k in DEFAULT_KEYS:
+        if rng.chance(1, 2):
+            d[k] = rng.choice([0, 1, 2, 3, 5])
+    return d
 
 
 def _anchored(key: str, value: Any) -> str:
@@ -218,17 +254,23 @@ def _agent_variant(rng: Rng, agents: List[Dict]) -> List[Dict]:
 
 
 def gen_folder(rng: Rng, root: Path, size: int = 1, n_topologies: int = 1, n_net: int = 3, n_agents: int = 2,
-               extra_entries: int = 2) -> Dict[str, Any]:
-    """Write a scenario folder. Topology t has network variants net_t_i (each with its own game options) and agent-set variants ag_t_j;
-    a schedule entry is [net_t_i.yaml, ag_t_j.yaml]. Some combination occurs twice. Returns a description."""
+               extra_entries: int = 2, base_cfgs: Optional[List[Dict]] = None) -> Dict[str, Any]:
+    """Write a scenario folder. Topology t has network variants net_t_i (each with its own game options, io_settings, `defaults`
+    durations and airspace capacities) and agent-set variants ag_t_j; a schedule entry is [net_t_i.yaml, ag_t_j.yaml]. Some combination
+    occurs twice. A topology is generated (harness/gen/scenario.py) or, with `base_cfgs`, taken from a given scenario (the shipped
+    wireless one: there the airspace capacities matter). Returns a description."""
     root = Path(root)
     root.mkdir(parents=True, exist_ok=True)
     combos: List[List[str]] = []
-    desc: Dict[str, Any] = {"nmne": {}, "topologies": []}
+    desc: Dict[str, Any] = {"nmne": {}, "topologies": [], "air": {}, "defaults": {}, "io": {}}
     base_game = None
     for t in range(n_topologies):
-        fam = rng.choice(gsc.FAMILIES)
-        cfg = gsc.gen_scenario(rng.fork(f"topo{t}"), size=size, family=fam)
+        if base_cfgs:
+            fam = "given"
+            cfg = copy.deepcopy(base_cfgs[t % len(base_cfgs)])
+        else:
+            fam = rng.choice(gsc.FAMILIES)
+            cfg = gsc.gen_scenario(rng.fork(f"topo{t}"), size=size, family=fam)
         wants_nmne = any(c.get("options", {}).get("include_nmne") for a in cfg["agents"] for c in
                          (a.get("observation_space", {}).get("options", {}).get("components", [])))
         if wants_nmne:   # F-5 (C02): a space with NMNE entries needs capture switched on in every episode; drop the entries instead
@@ -248,10 +290,22 @@ def gen_folder(rng: Rng, root: Path, size: int = 1, n_topologies: int = 1, n_net
             elif t == 0 and i == 1:
                 force = rng.choice([None, {}])
             net = _net_variant(rng.fork(f"net{t}{i}"), cfg["simulation"]["network"], force)
+            rv = rng.fork(f"var{t}{i}")
+            # airspace capacities of this episode: the first two variants always differ (an override followed by none: the second must not
+            # inherit the first one's capacity)
+            air = AIR_CHOICES[1 + rv.below(len(AIR_CHOICES) - 1)] if i == 0 else None if i == 1 else rv.choice(AIR_CHOICES)
+            net.pop("airspace", None)
+            if air is not None:
+                net["airspace"] = {"frequency_max_capacity_mbps": dict(air)}
             fn = f"net_{t}_{i}.yaml"
-            opts = {"net": net, "game": _game_variant(rng.fork(f"game{t}{i}"))}
-            (root / fn).write_text(_anchored("net_options", opts["net"]) + _anchored("game_options", opts["game"]))
+            opts = {"net": net, "game": _game_variant(rng.fork(f"game{t}{i}")), "io": _io_variant(rv.fork("io")),
+                    "defaults": _defaults_variant(rv.fork("defaults")) if i != 1 else {}}
+            (root / fn).write_text(_anchored("net_options", opts["net"]) + _anchored("game_options", opts["game"])
+                                   + _anchored("io_options", opts["io"]) + _anchored("defaults_options", opts["defaults"]))
             desc["nmne"][fn] = net.get("nmne_config", "<absent>")
+            desc["air"][fn] = air if air is not None else "<absent>"
+            desc["defaults"][fn] = opts["defaults"]
+            desc["io"][fn] = {k: v for k, v in opts["io"].items() if k.endswith("_level")}
             nets.append(fn)
         for j in range(n_agents):
             fn = f"ag_{t}_{j}.yaml"
@@ -266,7 +320,7 @@ def gen_folder(rng: Rng, root: Path, size: int = 1, n_topologies: int = 1, n_net
     order = [first_on, first_off] + [c for c in order if c not in (first_on, first_off)]
     for _ in range(extra_entries):
         order.insert(rng.range(2, len(order)), copy.deepcopy(rng.choice(order)))
-    base = ("io_settings:\n" + "".join(f"  {k}: {'true' if v else 'false'}\n" for k, v in scen.QUIET_IO.items())
+    base = ("io_settings:\n  <<: *io_options\ndefaults:\n  <<: *defaults_options\n"
             + "game:\n  <<: *game_options\n" + "".join("  " + l + "\n" for l in yaml.safe_dump(base_game, sort_keys=False).splitlines())
             + "agents:\n  - *agent_set\nsimulation:\n  network:\n    <<: *net_options\n")
     (root / "scenario.yaml").write_text(base)
